@@ -44,10 +44,17 @@ def gen_programs(rep, tier, families=None):
         if tier == "thorough":
             chosen = ps
         else:
-            default = [p for p in ps if optsig(p["opts"]) == "le=,sp=,ap=,pl=,pc="]
-            others = [p for p in ps if p not in default]
-            k = zlib.crc32(tag.encode()) % len(others) if others else 0
-            chosen = default + ([others[k]] if others else [])
+            # quick: the default options plus the settings whose facets matter for this cell family
+            # (byte order for everything; string prefix != array prefix and a wide array prefix for repeated
+            # fields; configuration-level padding for fixed strings)
+            want = ["le=,sp=,ap=,pl=,pc=", "le=true,sp=u32,ap=u8,pl=,pc="]
+            if tag.endswith(":rep") or tag.startswith(("obj:listoflists", "obj:withlist")):
+                want += ["le=true,sp=,ap=,pl=,pc=", "le=false,sp=u8,ap=u32,pl=,pc="]
+            if tag.startswith(("fix", "meta")):
+                want += ["le=,sp=u64,ap=u64,pl=true,pc=0"]
+            if tag.startswith(("ck", "len")):
+                want += ["le=true,sp=,ap=,pl=,pc="]
+            chosen = [p for p in ps if optsig(p["opts"]) in want]
         for p in chosen:
             p = dict(p)
             p["id"] = "%s@%s" % (tag, optsig(p["opts"]))
